@@ -2015,7 +2015,7 @@ def match_stream(ctx, checker, with_model, cases=None):
     import contextlib, io
     OI = ("union", [("typed", G.INT), ("known", ("none",))])
     if cases is None:
-        cases = corpus_match_cases() + std_match_cases() + [gen_match_case(ctx.rng) for _ in range(ctx.n(170, 4000))]
+        cases = corpus_match_cases() + std_match_cases() + [gen_match_case(ctx.rng) for _ in range(ctx.n(170, 2500))]
     cases = [(c[0], c[1], c[2], c[3] if len(c) > 3 else OI) for c in cases]
     cases = [(Vt, pats, leave, Vz) for Vt, pats, leave, Vz in cases
              if spellable(Vt) and all(pat_src(p) is not None for p in pats)]
